@@ -7,6 +7,7 @@ package harness
 // fault phase of C23 (statistics).
 
 import (
+	"errors"
 	"context"
 	"fmt"
 	"runtime"
@@ -187,6 +188,9 @@ type CursorCase struct {
 	// Repeat: run the same script this many times (first violation wins): for
 	// scripts whose interesting interleaving is a matter of a few percent
 	Repeat int `json:"repeat,omitempty"`
+	// CancelCause: the Query context is a WithCancelCause context cancelled with
+	// a cause of the caller's own (ctx.Err() is still context.Canceled)
+	CancelCause bool `json:"cancel_cause,omitempty"`
 }
 
 func cursorQuery(kind string) *bs.Query {
@@ -211,6 +215,7 @@ func genCursorCase(withFaults bool) *rapid.Generator[CursorCase] {
 		c.Query = pick(t, "query", []string{"all", "token", "all", "file0", "only00", "none"})
 		c.Lifecycle = pick(t, "life", []string{"never", "started", "stopped"})
 		c.Procs = pick(t, "procs", []int{0, 2, 4})
+		c.CancelCause = chance(t, "cancelcause", 40)
 		if chance(t, "latency", 40) {
 			c.LatencyUs = pick(t, "latus", []int{100, 500, 2000})
 		}
@@ -467,6 +472,10 @@ func runCursorCase(c CursorCase) (*CursorObs, *Trace, *bs.BloomSearchEngine, *Vi
 		cancel()
 	}
 	ctx, cancel := context.WithCancel(context.Background())
+	if c.CancelCause {
+		cctx, cc := context.WithCancelCause(context.Background())
+		ctx, cancel = cctx, func() { cc(errors.New("client disconnected")) }
+	}
 	defer cancel()
 	res, qerr := eng.Query(ctx, cursorQuery(c.Query))
 	if qerr != nil {
